@@ -23,6 +23,8 @@ def run_check(tier):
     del pairs, sc
     jc.load_leg(chk, tier, "skip", {"MaxOps": 2 if quick else 3, "Widths": "{0, 3}" if quick else "{0, 1, 3, 4, 6}"},
                 ["SkipNeverThrows", "SkipKeepsShape", "Export"], label="JSON load with offending values")
+    jc.load_leg(chk, tier, "skip", {"MaxOps": 2 if quick else 3, "Widths": "{0, 3}" if quick else "{0, 1, 2, 3, 5}"},
+                ["SkipNeverThrows", "SkipKeepsShape", "Export"], label="XML load with offending values", arch="xml")
     return chk.finish()
 
 
